@@ -96,6 +96,7 @@ func (d *dateObject) Set(epoch float64) {
 		d.epoch = -1
 		d.value = NaNValue()
 	} else {
+		d.isNaN = false // a valid time replaces an invalid one (setTime on an invalid date)
 		d.value = int64Value(d.epoch)
 	}
 }
